@@ -513,6 +513,33 @@ def run_family(ctx, job):
                 ctx.check(fn, v)
 
 
+def run_get_user(ctx, job):
+    """The C-STORE responses of the C-GET user (qr_get_scu): peer scripts of 1-5 sub-operation requests of two storage
+    classes interleaved with pending C-GET responses, in memory and file-backed, handler outcomes of every kind; from the third
+    request on optionally arriving on the other storage context.  Judged by the correlation oracle (message id, class,
+    instance, context the request arrived on, handler status) through C19's C-GET harness."""
+    quiet_warnings()
+    from . import c19
+    k = 0
+    for script in ('S', 'SS', 'SPS', 'SSS', 'SPSPS', 'SSSSS'):
+        for fb in (False, True, 'late'):
+            for hos in (['s'] * 8, ['w', 'f', 's', 'raise'] * 2, ['raise', 's'] * 4):
+                for cross in (False, True):
+                    if cross and script.count('S') < 3:
+                        continue
+                    k += 1
+                    mid = MSG_IDS[k % len(MSG_IDS)]
+                    ctx.case(('get-user', script, fb, hos[0], cross, mid), True,
+                             labels=['svc=qr_get_scu (C-STORE responses)'] + (['get: class arriving on a second context'] if cross else []),
+                             sample={'family': 'qr_get_scu', 'peer script': script, 'file_backed': fb, 'handler': hos[:script.count('S')],
+                                     'cross': cross, 'msg_id': mid})
+                    try:
+                        c19.get_case(script, hos, 0x0000, fb, mid, cross=cross)
+                    except Violation as v:
+                        case = dict(v.case, svc='qr_get_scu')
+                        ctx.fail(v.key.replace('C19:', 'C17:get-user:', 1), v.what, case)
+
+
 def run(ctx):
     quiet_warnings()
     ctx.rule = ('one Hypothesis search per provider callable (verification_scp, storage_scp in memory and file-backed, '
@@ -525,15 +552,21 @@ def run(ctx):
     ctx.assumptions = ['where the library documents no failure status for EventHandlingError (C-FIND, C-MOVE) any '
                        'Failure-class status is accepted, but the request must be answered',
                        'storage commitment requests use the well-known SOP instance 1.2.840.10008.1.20.1.1',
-                       'provider replaced by vf/fakedul.py; the C-GET user side is covered by C19']
+                       'provider replaced by vf/fakedul.py; the C-STORE responses of the C-GET user are judged through C19\'s harness '
+                       '(an enumerated part here, the generated part in C19)']
     n = 2500 if ctx.thorough else 250
     parallel(ctx, run_family, [{'family': f, 'n': n} for f in sorted(FAMILIES)])
+    parallel(ctx, run_get_user, [{}])
 
 
 def replay(case):
     quiet_warnings()
     LAZY[0] = bool(case.get('lazy'))
     s = case['svc']
+    if s == 'qr_get_scu':
+        from . import c19
+        c19.replay(dict(case, kind='get'))
+        return
     if s == 'n_action-retry':
         action_retry_case(case['mode'], case['k'])
         return
